@@ -208,7 +208,8 @@ pub fn gen_circuit(r: &mut Rng, big: bool) -> Plain {
     let n_in = r.range(0, 3);
     let mut w: Vec<L> = vec![0; n_in];
     let mut e = vec![];
-    let m = r.range(0, if big { 9 } else { 6 });
+    let huge = r.chance(1, if big { 20 } else { 150 });
+    let m = if huge { r.range(10, 40) } else { r.range(0, if big { 9 } else { 6 }) };
     for id in 0..m {
         let n = w.len();
         let ks = if n == 0 { 0 } else { r.range(0, 3) };
